@@ -11,7 +11,7 @@
       for the property it breaks (or the given IDs); records detected / missed in seeded/<name>/result.json.
 Scratch worktrees are removed afterwards.
 """
-import json, os, shutil, subprocess, sys, time
+import json, os, re, shutil, subprocess, sys, time
 
 VERIF = os.path.dirname(os.path.dirname(os.path.dirname(os.path.abspath(__file__))))
 ENV = dict(os.environ, GOFLAGS="-mod=mod", GOPROXY="off", GOSUMDB="off", GOTOOLCHAIN="local", GOPHERJS_SKIP_VERSION_CHECK="true")
@@ -105,7 +105,9 @@ def run(name, ids, ref):
             t0 = time.time()
             rc, out = sh(["./check", pid, "--tier", os.environ.get("VERIF_TIER", "quick")], cwd=VERIF, env=dict(ENV, VERIF_REPO=wt), timeout=7200)
             viol = [l for l in out.split("\n") if l.startswith("VIOLATION")]
-            res[pid] = dict(exit=rc, detected=bool(rc != 0 and viol), violation_lines=[v.replace(wt, "<wt>") for v in viol[:4]], wall_s=round(time.time() - t0, 1),
+            sigs = sorted(set(re.findall(r"violation \[([^\]]+)\]", out)))
+            msgs = [l.split("] ", 1)[-1][:300] for l in out.split("\n") if "violation [" in l][:6]
+            res[pid] = dict(exit=rc, detected=bool(rc != 0 and viol), violation_lines=[v.replace(wt, "<wt>") for v in viol[:4]], signatures=sigs, messages=msgs, wall_s=round(time.time() - t0, 1),
                             tail=out.strip().split("\n")[-1][:300])
             print(name, pid, "DETECTED" if res[pid]["detected"] else "MISSED", res[pid]["tail"])
     finally:
